@@ -959,7 +959,51 @@ def check_pages(env, nviews):
 
 # ----------------------------------------------------------------------
 
+def collapse_stress(ctx, rng, idx):
+    """Collapsed, score-ordered, limited searches over documents with pairwise distinct scores and few collapse keys:
+    almost every later, better document evicts a queued one with the same key while the top-N heap is full. For every
+    limit 2..13 and collapse_limit 1..2 the hits must be the first `limit` entries of the model: walk the full ranking,
+    keep the first collapse_limit documents of each key."""
+    from whoosh import fields, query, scoring
+    from whoosh.filedb.filestore import RamStorage
+    schema = fields.Schema(id=fields.ID(stored=True), t=fields.TEXT, g=fields.ID(stored=True, sortable=True))
+    n = rng.randint(15, 70)
+    m = rng.randint(3, 12)
+    tfs = rng.sample(range(1, 200), n)
+    keys = ["k%d" % rng.randrange(m) for _ in range(n)]
+    w = {"variant": "collapse-stress", "case_idx": idx, "ndocs": n, "nkeys": m, "tf": tfs, "keys": keys}
+
+    def body():
+        ix = RamStorage().create_index(schema)
+        wr = ix.writer()
+        for i in range(n):
+            wr.add_document(id=str(i), t=" ".join(["alfa"] * tfs[i]), g=keys[i])
+        wr.commit()
+        wm = rng.choice([scoring.Frequency(), scoring.TF_IDF()])
+        with ix.searcher(weighting=wm) as s:
+            q = query.Term("t", "alfa")
+            full = [(h.docnum, h["g"]) for h in s.search(q, limit=None)]
+            for cl in (1, 2):
+                seen, model = {}, []
+                for dn, g in full:
+                    if seen.get(g, 0) < cl:
+                        seen[g] = seen.get(g, 0) + 1
+                        model.append(dn)
+                for limit in range(2, 14):
+                    got = [h.docnum for h in s.search(q, limit=limit, collapse="g", collapse_limit=cl)]
+                    ctx.count("c14.collapse_stress.searches")
+                    if got != model[:limit]:
+                        ctx.fail("c14.collapse", "collapse-stress:limited-hits", dict(w, limit=limit, collapse_limit=cl),
+                                 "hits %r, best %d per key in ranking order gives %r" % (got, cl, model[:limit]))
+                        return
+    ctx.guard("c14.collapse", w, body)
+
+
 def run(ctx):
+    for k in range(ctx.pick(150, 1200)):
+        if ctx.replay_idx is not None:
+            break
+        collapse_stress(ctx, ctx.rng(-1 - k * ctx.nshards - ctx.shard, "collapse-stress"), -1 - k)
     for idx in ctx.cases(quick=60, thorough=500):
         rng = ctx.rng(idx)
         ctx.reseed_global(idx)
